@@ -2818,3 +2818,9 @@ VARIANTS.append(dict(prop="C19", id="sweep/sweep-category-weights-count-never-st
                      note="category_weights never steps the count of a label it has already seen"))
 VARIANTS.append(dict(prop="C19", id="sweep/sweep-category-weights-not-normalised", kind="M", rule="", expect_code=2, patch=_os.path.join(_HP, "sweep-category-weights-not-normalised.diff"),
                      note="category_weights returns raw counts (the division by the number of units deleted): the value shape is not found, refused"))
+# round 18: the array builders rebuild at every call (after seeded/C03-r18-*: the array form kept on the alignment, keyed without the units)
+for _p, _r in (("C03", "R-C03-0"), ("C04", "R-C04-0")):
+    VARIANTS.append(dict(prop=_p, id="r18/broken-alignment-arrays-memo-on-self", kind="M", rule=_r, patch=_os.path.join(_HP, "broken-alignment-arrays-memo-on-self.diff"),
+                         note="_build_arrays_alignment keeps the arrays in a dict on the dissimilarity keyed by id(alignment): edited unitary alignments are priced with their old units"))
+    VARIANTS.append(dict(prop=_p, id="r18/benign-alignment-arrays-returned-through-local", kind="B", rule="", patch=_os.path.join(_HP, "benign-alignment-arrays-returned-through-local.diff"),
+                         note="the array built in this call returned through a conditional expression and a local"))
